@@ -32,25 +32,37 @@ def main():
     rc, out = sh("git -C /repo worktree add --detach %s HEAD" % w)
     res = {"property": pid, "mutant": name, "summary": meta.get("summary"), "needs_to_manifest": meta.get("needs_to_manifest"), "ran": []}
     try:
-        # demo steps from the README: cp lines and the go test / go run line
-        cps = [l.strip() for l in readme.split("\n") if re.match(r"\s*(cp|mkdir) ", l)]
-        runs = [l.strip() for l in readme.split("\n") if re.match(r"\s*go (test|run|build)", l)]
-        cps = [c.replace(orig_repo, w) for c in cps]
-        seen = []
+        # locate the demonstration: a Go test file (copied into the package the README names) or a
+        # main package (copied to <repo>/cmd-demo-<name>/)
+        import glob
+        demo = os.path.join(mdir, "demo")
+        tests = glob.glob(os.path.join(demo, "*_test.go"))
+        mains = glob.glob(os.path.join(demo, "main.go")) + glob.glob(os.path.join(demo, "cmd-demo-*", "main.go")) + glob.glob(os.path.join(demo, "*", "main.go"))
+        cps, run_cmd, cwd = [], None, w
+        if tests:
+            t = tests[0]
+            m = re.search(r"cp\s+\S*" + re.escape(os.path.basename(t)) + r"\s+(\S+)", readme)
+            target = m.group(1).replace(orig_repo, w) if m else w
+            if not target.startswith(w):
+                m2 = re.search(r"[Cc]opy\S*\s+.*?(?:to|into)\s+[`'\"]?(\S*?repo/\S*?)[`'\" ,)]", readme)
+                target = m2.group(1).replace(orig_repo, w) if m2 else w
+            if target.endswith(".go"):
+                target = os.path.dirname(target)
+            target = target.rstrip("/") or w
+            if not os.path.isdir(target):
+                target = w
+            cps = ["cp %s %s/" % (t, target)]
+            names = re.findall(r"^func (Test\w+)\(", open(t).read(), re.M)
+            rel = os.path.relpath(target, w)
+            run_cmd = "go test -vet=off -count=1 -run '^(%s)$' ./%s" % ("|".join(names), rel if rel != "." else "")
+        elif mains:
+            d = "%s/cmd-demo-%s" % (w, name)
+            cps = ["mkdir -p %s" % d, "cp %s %s/main.go" % (mains[0], d)]
+            run_cmd = "go run ./cmd-demo-%s" % name
+        else:
+            res["error"] = "no demonstration found"
         for c in cps:
-            if c not in seen:
-                seen.append(c)
-        cps = seen
-        pref = [r for r in runs if " go run " in " " + r or "go run " in r or re.search(r"go test .*-run", r)]
-        run_cmd = (pref[0] if pref else (runs[0] if runs else None))
-        if run_cmd:
-            run_cmd = re.sub(r"\s*;\s*echo .*$", "", run_cmd).replace(orig_repo, w)
-        cwd_line = [l.strip() for l in readme.split("\n") if re.match(r"\s*cd /tmp/mut-", l)]
-        cwd = cwd_line[0].split(" ", 1)[1].replace(orig_repo, w) if cwd_line else w
-        if not run_cmd:
-            res["error"] = "no demo command found in README"
-        for c in cps:
-            sh(c, cwd=cwd if os.path.isdir(cwd) else w)
+            sh(c, cwd=w)
         rc0, out0 = sh(run_cmd, cwd=cwd) if run_cmd else (99, "")
         res["demo_at_head"] = "pass" if rc0 == 0 else "FAIL"
         res["ran"].append("%s   (HEAD: rc=%d)" % (run_cmd, rc0))
